@@ -17,6 +17,8 @@ use crate::peers::{proc_counts, script_server, tunnel_script_server, Step};
 pub enum StallPoint {
     /// the peer never answers the connection attempt (IP-literal URL, connect timeout 5 s): the overall timeout bounds this too
     Connect,
+    /// the same with a host name that resolves to two unresponsive addresses (the attempts are raced)
+    ConnectNamed,
     /// the server never reads a 24 MiB upload
     Upload,
     BeforeReply,
@@ -60,6 +62,10 @@ pub struct Case {
     /// 2 text_utf8(), 3 text()
     #[serde(default)]
     pub api: u8,
+    /// (completed responses) 1: the request is prepared, then T + 100 ms pass before it is sent; 2: the prepared request is sent
+    /// twice, the second exchange is the one that is judged. The budget T belongs to each send.
+    #[serde(default)]
+    pub prepared: u8,
 }
 
 pub struct C13;
@@ -95,7 +101,7 @@ fn split_response(point: StallPoint) -> (Vec<u8>, Vec<u8>) {
     };
     let find = |w: &[u8], pat: &[u8]| w.windows(pat.len()).position(|x| x == pat).unwrap();
     let (wire, k) = match point {
-        StallPoint::Connect | StallPoint::Upload | StallPoint::BeforeReply => (length.clone(), 0),
+        StallPoint::Connect | StallPoint::ConnectNamed | StallPoint::Upload | StallPoint::BeforeReply => (length.clone(), 0),
         StallPoint::InStatusLine => (length.clone(), 10),
         StallPoint::InHeader => (length.clone(), find(&length, b"X-Pad") + 9),
         StallPoint::AfterHead => (length.clone(), find(&length, b"\r\n\r\n") + 4),
@@ -146,7 +152,11 @@ fn install_sched(sched: &[(u8, u8)]) {
 }
 
 
-fn client_part(case: &Case, url: &str, upload: bool, t0: Instant, obs: &mut Observed, proxy_port: Option<u16>) {
+fn client_part(case: &Case, url: &str, upload: bool, t0: Instant, obs: &mut Observed, proxy_port: Option<u16>, resolve: Option<Vec<std::net::SocketAddr>>) {
+    let mut t0 = t0;
+    if let Some(addrs) = resolve {
+        attohttpc::verif_hooks::set_resolver(Some(Box::new(move |d, _| if d == "holes.test" { Some(addrs.clone()) } else { None })));
+    }
     {
         let proxy = match proxy_port {
             Some(p) => attohttpc::ProxySettings::builder().https_proxy(url::Url::parse(&format!("http://127.0.0.1:{p}")).unwrap()).build(),
@@ -157,7 +167,26 @@ fn client_part(case: &Case, url: &str, upload: bool, t0: Instant, obs: &mut Obse
             // t_ms == 1 stands for a budget that is gone before the connection exists (1 ns)
             rb = rb.timeout(if case.t_ms == 1 { Duration::from_nanos(1) } else { Duration::from_millis(case.t_ms as u64) });
         }
-        let res = if upload { rb.bytes(vec![0x55u8; 24 << 20]).send() } else { rb.send() };
+        let res = if upload {
+            rb.bytes(vec![0x55u8; 24 << 20]).send()
+        } else if case.prepared != 0 && matches!(case.scenario, Scenario::Complete { .. }) {
+            match rb.try_prepare() {
+                Err(e) => Err(e),
+                Ok(mut p) => {
+                    if case.prepared == 1 {
+                        std::thread::sleep(Duration::from_millis(case.t_ms as u64 + 100));
+                    } else if let Ok(mut first) = p.send() {
+                        let mut sink = vec![];
+                        let _ = first.read_to_end(&mut sink);
+                    }
+                    // the budget starts with the send that is judged
+                    t0 = Instant::now();
+                    p.send()
+                }
+            }
+        } else {
+            rb.send()
+        };
         match res {
             Err(e) => {
                 obs.err_after_ms = Some(t0.elapsed().as_millis());
@@ -294,13 +323,23 @@ fn run_once(case: &Case) -> Result<Observed, String> {
             (vec![s], false)
         }
     };
-    let connect_stall = matches!(case.scenario, Scenario::Stall { point: StallPoint::Connect, .. });
+    let connect_stall = matches!(case.scenario, Scenario::Stall { point: StallPoint::Connect | StallPoint::ConnectNamed, .. });
+    let named = matches!(case.scenario, Scenario::Stall { point: StallPoint::ConnectNamed, .. });
+    let mut hole2 = if named { Some(crate::peers::black_hole(false, 2).map_err(|e| format!("black hole: {e}"))?) } else { None };
+    // a prepared request that is sent twice needs the same response twice
+    let scripts = if case.prepared == 2 && matches!(case.scenario, Scenario::Complete { .. }) && scripts.len() == 1 { vec![scripts[0].clone(), scripts[0].clone()] } else { scripts };
     let mut hole = if connect_stall { Some(crate::peers::black_hole(false, 1).map_err(|e| format!("black hole: {e}"))?) } else { None };
-    let tunnel = case.tunnel && scripts.len() == 1 && !upload && !connect_stall;
+    let tunnel = case.tunnel && scripts.len() == 1 && !upload && !connect_stall && case.prepared != 2;
     let mut server = if tunnel { tunnel_script_server("good", scripts.into_iter().next().unwrap()) } else { script_server(scripts) }.map_err(|e| format!("server: {e}"))?;
     install_sched(&case.sched);
     let proxy_port = server.addr.port();
-    let url = if let Some(h) = &hole {
+    let resolve = match (&hole, &hole2) {
+        (Some(a), Some(b)) => Some(vec![a.addr, b.addr]),
+        _ => None,
+    };
+    let url = if named {
+        "http://holes.test:81/x".to_string()
+    } else if let Some(h) = &hole {
         format!("http://{}/x", h.addr)
     } else if tunnel {
         "https://127.0.0.1:4443/x".to_string()
@@ -326,7 +365,7 @@ fn run_once(case: &Case) -> Result<Observed, String> {
             repolls: 0,
             reread_clean_eof: false,
         };
-        client_part(case, &url, upload, t0, &mut obs, if tunnel { Some(proxy_port) } else { None });
+        client_part(case, &url, upload, t0, &mut obs, if tunnel { Some(proxy_port) } else { None }, resolve);
         let _ = tx.send(obs);
     });
     // the property itself bounds the duration of every call: a client that is still busy long after both timeouts is
@@ -342,6 +381,7 @@ fn run_once(case: &Case) -> Result<Observed, String> {
             server.finish();
             // (closing the unresponsive listener makes a connection attempt that nothing else bounds fail at its next retransmission)
             drop(hole.take());
+            drop(hole2.take());
             let mut o = rx.recv_timeout(Duration::from_secs(30)).map_err(|_| "client thread did not end even after the peer closed".to_string())?;
             o.hung = true;
             o
@@ -354,6 +394,7 @@ fn run_once(case: &Case) -> Result<Observed, String> {
     server.finish();
     drop(server);
     drop(hole);
+    drop(hole2);
     // S4: threads and descriptors are released promptly
     let t1 = Instant::now();
     loop {
@@ -420,51 +461,57 @@ labelled points of the watchdog / reader (verif-hooks H3). Oracle S1-S4. non-tri
             StallPoint::InCloseBody,
         ];
         for p in points {
-            v.push(Case { scenario: Scenario::Stall { point: p, drip_ms: 0 }, t_ms: 250, r_ms: 5000, reads: vec![4096], sched: vec![], tunnel: false, api: 0 });
+            v.push(Case { scenario: Scenario::Stall { point: p, drip_ms: 0 }, t_ms: 250, r_ms: 5000, reads: vec![4096], sched: vec![], tunnel: false, api: 0, prepared: 0 });
             if p != StallPoint::Upload {
-                v.push(Case { scenario: Scenario::Stall { point: p, drip_ms: 30 }, t_ms: 300, r_ms: 150, reads: vec![1, 100], sched: vec![], tunnel: false, api: 0 });
-                v.push(Case { scenario: Scenario::Stall { point: p, drip_ms: 0 }, t_ms: 0, r_ms: 150, reads: vec![512], sched: vec![], tunnel: false, api: 0 });
+                v.push(Case { scenario: Scenario::Stall { point: p, drip_ms: 30 }, t_ms: 300, r_ms: 150, reads: vec![1, 100], sched: vec![], tunnel: false, api: 0, prepared: 0 });
+                v.push(Case { scenario: Scenario::Stall { point: p, drip_ms: 0 }, t_ms: 0, r_ms: 150, reads: vec![512], sched: vec![], tunnel: false, api: 0, prepared: 0 });
             }
         }
+        // the budget belongs to the send, not to the prepared request
+        for framing in 0..3u8 {
+            v.push(Case { scenario: Scenario::Complete { framing, payload: 400, extra_reads: vec![(10, 0)] }, t_ms: 300, r_ms: 5000, reads: vec![4096], sched: vec![], tunnel: false, api: 0, prepared: 1 });
+            v.push(Case { scenario: Scenario::Complete { framing, payload: 400, extra_reads: vec![(10, 0)] }, t_ms: 300, r_ms: 5000, reads: vec![4096], sched: vec![], tunnel: false, api: 0, prepared: 2 });
+        }
+        v.push(Case { scenario: Scenario::Stall { point: StallPoint::ConnectNamed, drip_ms: 0 }, t_ms: 300, r_ms: 5000, reads: vec![4096], sched: vec![], tunnel: false, api: 0, prepared: 0 });
         // the connection attempt itself is never answered
-        v.push(Case { scenario: Scenario::Stall { point: StallPoint::Connect, drip_ms: 0 }, t_ms: 300, r_ms: 5000, reads: vec![4096], sched: vec![], tunnel: false, api: 0 });
-        v.push(Case { scenario: Scenario::Stall { point: StallPoint::Connect, drip_ms: 0 }, t_ms: 1, r_ms: 150, reads: vec![4096], sched: vec![], tunnel: false, api: 0 });
+        v.push(Case { scenario: Scenario::Stall { point: StallPoint::Connect, drip_ms: 0 }, t_ms: 300, r_ms: 5000, reads: vec![4096], sched: vec![], tunnel: false, api: 0, prepared: 0 });
+        v.push(Case { scenario: Scenario::Stall { point: StallPoint::Connect, drip_ms: 0 }, t_ms: 1, r_ms: 150, reads: vec![4096], sched: vec![], tunnel: false, api: 0, prepared: 0 });
         for p in [StallPoint::BeforeReply, StallPoint::AfterHead, StallPoint::InChunkData, StallPoint::InLengthBody] {
             // overall timeout (almost) expired before the connection exists; and read timeout far below the overall timeout
-            v.push(Case { scenario: Scenario::Stall { point: p, drip_ms: 0 }, t_ms: 1, r_ms: 5000, reads: vec![4096], sched: vec![], tunnel: false, api: 0 });
-            v.push(Case { scenario: Scenario::Stall { point: p, drip_ms: 0 }, t_ms: 2500, r_ms: 150, reads: vec![4096], sched: vec![], tunnel: false, api: 0 });
+            v.push(Case { scenario: Scenario::Stall { point: p, drip_ms: 0 }, t_ms: 1, r_ms: 5000, reads: vec![4096], sched: vec![], tunnel: false, api: 0, prepared: 0 });
+            v.push(Case { scenario: Scenario::Stall { point: p, drip_ms: 0 }, t_ms: 2500, r_ms: 150, reads: vec![4096], sched: vec![], tunnel: false, api: 0, prepared: 0 });
         }
         for framing in 0..3u8 {
-            v.push(Case { scenario: Scenario::Complete { framing, payload: 500, extra_reads: vec![(10, 0), (10, 0)] }, t_ms: 300, r_ms: 5000, reads: vec![4096], sched: vec![], tunnel: false, api: 0 });
-            v.push(Case { scenario: Scenario::Complete { framing, payload: 500, extra_reads: vec![(10, 0), (10, 400), (1, 0)] }, t_ms: 250, r_ms: 5000, reads: vec![100], sched: vec![], tunnel: false, api: 0 });
-            v.push(Case { scenario: Scenario::Complete { framing, payload: 0, extra_reads: vec![(64, 350)] }, t_ms: 200, r_ms: 5000, reads: vec![4096], sched: vec![], tunnel: false, api: 0 });
+            v.push(Case { scenario: Scenario::Complete { framing, payload: 500, extra_reads: vec![(10, 0), (10, 0)] }, t_ms: 300, r_ms: 5000, reads: vec![4096], sched: vec![], tunnel: false, api: 0, prepared: 0 });
+            v.push(Case { scenario: Scenario::Complete { framing, payload: 500, extra_reads: vec![(10, 0), (10, 400), (1, 0)] }, t_ms: 250, r_ms: 5000, reads: vec![100], sched: vec![], tunnel: false, api: 0, prepared: 0 });
+            v.push(Case { scenario: Scenario::Complete { framing, payload: 0, extra_reads: vec![(64, 350)] }, t_ms: 200, r_ms: 5000, reads: vec![4096], sched: vec![], tunnel: false, api: 0, prepared: 0 });
         }
         for p in [StallPoint::AfterHead, StallPoint::InLengthBody, StallPoint::InCloseBody] {
-            v.push(Case { scenario: Scenario::StallThenDrip { point: p, stall_ms: 270, drip_ms: 30 }, t_ms: 700, r_ms: 150, reads: vec![4096], sched: vec![], tunnel: false, api: 0 });
+            v.push(Case { scenario: Scenario::StallThenDrip { point: p, stall_ms: 270, drip_ms: 30 }, t_ms: 700, r_ms: 150, reads: vec![4096], sched: vec![], tunnel: false, api: 0, prepared: 0 });
         }
         // bodies collected with the helpers: a read-timeout (or the deadline) inside the body ends the helper with an error too
         for api in 1..4u8 {
             for p in [StallPoint::InLengthBody, StallPoint::InCloseBody, StallPoint::InChunkData] {
-                v.push(Case { scenario: Scenario::Stall { point: p, drip_ms: 0 }, t_ms: 0, r_ms: 150, reads: vec![4096], sched: vec![], tunnel: false, api });
-                v.push(Case { scenario: Scenario::Stall { point: p, drip_ms: 0 }, t_ms: 2500, r_ms: 150, reads: vec![4096], sched: vec![], tunnel: false, api });
+                v.push(Case { scenario: Scenario::Stall { point: p, drip_ms: 0 }, t_ms: 0, r_ms: 150, reads: vec![4096], sched: vec![], tunnel: false, api, prepared: 0 });
+                v.push(Case { scenario: Scenario::Stall { point: p, drip_ms: 0 }, t_ms: 2500, r_ms: 150, reads: vec![4096], sched: vec![], tunnel: false, api, prepared: 0 });
             }
-            v.push(Case { scenario: Scenario::Stall { point: StallPoint::InCloseBody, drip_ms: 0 }, t_ms: 250, r_ms: 5000, reads: vec![4096], sched: vec![], tunnel: false, api });
+            v.push(Case { scenario: Scenario::Stall { point: StallPoint::InCloseBody, drip_ms: 0 }, t_ms: 250, r_ms: 5000, reads: vec![4096], sched: vec![], tunnel: false, api, prepared: 0 });
         }
-        v.push(Case { scenario: Scenario::SlowChain { delay_ms: 80 }, t_ms: 300, r_ms: 5000, reads: vec![4096], sched: vec![], tunnel: false, api: 0 });
-        v.push(Case { scenario: Scenario::SlowChain { delay_ms: 120 }, t_ms: 400, r_ms: 200, reads: vec![4096], sched: vec![], tunnel: false, api: 0 });
+        v.push(Case { scenario: Scenario::SlowChain { delay_ms: 80 }, t_ms: 300, r_ms: 5000, reads: vec![4096], sched: vec![], tunnel: false, api: 0, prepared: 0 });
+        v.push(Case { scenario: Scenario::SlowChain { delay_ms: 120 }, t_ms: 400, r_ms: 200, reads: vec![4096], sched: vec![], tunnel: false, api: 0, prepared: 0 });
         // the same stalls inside a CONNECT tunnel (TLS between the client and the stalling origin)
         for p in [StallPoint::BeforeReply, StallPoint::InHeader, StallPoint::AfterHead, StallPoint::InChunkData, StallPoint::BetweenChunks, StallPoint::InLengthBody, StallPoint::InCloseBody] {
-            v.push(Case { scenario: Scenario::Stall { point: p, drip_ms: 0 }, t_ms: 300, r_ms: 5000, reads: vec![4096], sched: vec![], tunnel: true, api: 0 });
-            v.push(Case { scenario: Scenario::Stall { point: p, drip_ms: 25 }, t_ms: 350, r_ms: 150, reads: vec![64], sched: vec![], tunnel: true, api: 0 });
+            v.push(Case { scenario: Scenario::Stall { point: p, drip_ms: 0 }, t_ms: 300, r_ms: 5000, reads: vec![4096], sched: vec![], tunnel: true, api: 0, prepared: 0 });
+            v.push(Case { scenario: Scenario::Stall { point: p, drip_ms: 25 }, t_ms: 350, r_ms: 150, reads: vec![64], sched: vec![], tunnel: true, api: 0, prepared: 0 });
         }
         for framing in 0..3u8 {
-            v.push(Case { scenario: Scenario::Complete { framing, payload: 300, extra_reads: vec![(10, 0), (10, 450)] }, t_ms: 350, r_ms: 5000, reads: vec![4096], sched: vec![], tunnel: true, api: 0 });
+            v.push(Case { scenario: Scenario::Complete { framing, payload: 300, extra_reads: vec![(10, 0), (10, 450)] }, t_ms: 350, r_ms: 5000, reads: vec![4096], sched: vec![], tunnel: true, api: 0, prepared: 0 });
         }
         // schedule perturbation at every labelled point, for a stalled and for a finished close-delimited response
         for l in 0..LABELS.len() as u8 {
-            v.push(Case { scenario: Scenario::Stall { point: StallPoint::InCloseBody, drip_ms: 0 }, t_ms: 200, r_ms: 5000, reads: vec![4096], sched: vec![(l, 150)], tunnel: false, api: 0 });
-            v.push(Case { scenario: Scenario::Stall { point: StallPoint::AfterHead, drip_ms: 0 }, t_ms: 200, r_ms: 5000, reads: vec![4096], sched: vec![(l, 150)], tunnel: false, api: 0 });
-            v.push(Case { scenario: Scenario::Complete { framing: 2, payload: 100, extra_reads: vec![(10, 0), (10, 300)] }, t_ms: 250, r_ms: 5000, reads: vec![4096], sched: vec![(l, 60)], tunnel: false, api: 0 });
+            v.push(Case { scenario: Scenario::Stall { point: StallPoint::InCloseBody, drip_ms: 0 }, t_ms: 200, r_ms: 5000, reads: vec![4096], sched: vec![(l, 150)], tunnel: false, api: 0, prepared: 0 });
+            v.push(Case { scenario: Scenario::Stall { point: StallPoint::AfterHead, drip_ms: 0 }, t_ms: 200, r_ms: 5000, reads: vec![4096], sched: vec![(l, 150)], tunnel: false, api: 0, prepared: 0 });
+            v.push(Case { scenario: Scenario::Complete { framing: 2, payload: 100, extra_reads: vec![(10, 0), (10, 300)] }, t_ms: 250, r_ms: 5000, reads: vec![4096], sched: vec![(l, 60)], tunnel: false, api: 0, prepared: 0 });
         }
         Some(Box::new(v.into_iter().enumerate().filter(move |(i, _)| i % nworkers == worker).map(|(_, c)| c)))
     }
@@ -472,6 +519,7 @@ labelled points of the watchdog / reader (verif-hooks H3). Oracle S1-S4. non-tri
     fn strategy(_tier: Tier) -> BoxedStrategy<Case> {
         let point = prop_oneof![
             1 => Just(StallPoint::Connect),
+            1 => Just(StallPoint::ConnectNamed),
             1 => Just(StallPoint::Upload),
             1 => Just(StallPoint::BeforeReply),
             1 => Just(StallPoint::InStatusLine),
@@ -498,14 +546,14 @@ labelled points of the watchdog / reader (verif-hooks H3). Oracle S1-S4. non-tri
             proptest::collection::vec(prop_oneof![Just(1u16), 2u16..200, Just(4096u16), Just(65535u16)], 1..4),
             prop_oneof![3 => Just(vec![]), 1 => proptest::collection::vec((0u8..LABELS.len() as u8, 20u8..200), 1..3)],
             prop::bool::weighted(0.15),
-            (prop::bool::weighted(0.25), prop_oneof![3 => Just(0u8), 1 => 1u8..4]),
+            (prop::bool::weighted(0.25), prop_oneof![3 => Just(0u8), 1 => 1u8..4], prop_oneof![3 => Just(0u8), 1 => Just(1u8), 1 => Just(2u8)]),
         )
-            .prop_map(|(scenario, t_ms, r_ms, reads, sched, no_t, (tunnel, api))| {
+            .prop_map(|(scenario, t_ms, r_ms, reads, sched, no_t, (tunnel, api, prepared))| {
                 let mut t_ms = t_ms;
                 // only the read timeout: a silent stall (not an upload, not dripping) must end by R
                 if no_t {
                     if let Scenario::Stall { point, drip_ms: 0 } = &scenario {
-                        if *point != StallPoint::Upload && *point != StallPoint::Connect {
+                        if !matches!(*point, StallPoint::Upload | StallPoint::Connect | StallPoint::ConnectNamed) {
                             t_ms = 0;
                         }
                     }
@@ -530,7 +578,8 @@ labelled points of the watchdog / reader (verif-hooks H3). Oracle S1-S4. non-tri
                 let sched = if matches!(scenario, Scenario::SlowChain { .. }) { vec![] } else { sched };
                 // the TLS handshake of the tunnel eats into a short overall timeout: give tunnelled cases a little more
                 let t_ms = if tunnel && t_ms > 0 { t_ms.max(250) } else { t_ms };
-                Case { scenario, t_ms, r_ms, reads, sched, tunnel, api }
+                let prepared = if matches!(scenario, Scenario::Complete { .. }) { prepared } else { 0 };
+                Case { scenario, t_ms, r_ms, reads, sched, tunnel, api, prepared }
             })
             .boxed()
     }
@@ -579,7 +628,7 @@ labelled points of the watchdog / reader (verif-hooks H3). Oracle S1-S4. non-tri
                         return Outcome::fail("C13:cut-body-reported-complete-on-reread", format!("after the timeout error a further read returned Ok(0); {describe}"));
                     }
                     // (the read timeout says nothing about the connection attempt: only T and the 5 s connect timeout bound that)
-                    let bound = if *point == StallPoint::Connect { if t > 0 { t.min(5000) } else { 5000 } } else if t > 0 { if *drip_ms == 0 { t.min(r) } else { t } } else { r };
+                    let bound = if matches!(*point, StallPoint::Connect | StallPoint::ConnectNamed) { if t > 0 { t.min(5000) } else { 5000 } } else if t > 0 { if *drip_ms == 0 { t.min(r) } else { t } } else { r };
                     match obs.err_after_ms {
                         None => timing_fail = Some(Outcome::fail("C13:no-timeout", format!("no call failed; {describe}"))),
                         Some(ms) => {
@@ -592,9 +641,10 @@ labelled points of the watchdog / reader (verif-hooks H3). Oracle S1-S4. non-tri
                             }
                         }
                     }
-                    ctx.nontrivial = !matches!(point, StallPoint::Connect | StallPoint::Upload | StallPoint::BeforeReply | StallPoint::InStatusLine | StallPoint::InHeader) || *drip_ms > 0;
+                    ctx.nontrivial = !matches!(point, StallPoint::Connect | StallPoint::ConnectNamed | StallPoint::Upload | StallPoint::BeforeReply | StallPoint::InStatusLine | StallPoint::InHeader) || *drip_ms > 0;
                     ctx.label(match point {
                         StallPoint::Connect => "stall:connect",
+                        StallPoint::ConnectNamed => "stall:connect(two raced addresses)",
                         StallPoint::Upload => "stall:upload",
                         StallPoint::BeforeReply => "stall:before-reply",
                         StallPoint::InStatusLine => "stall:status-line",
@@ -630,6 +680,15 @@ labelled points of the watchdog / reader (verif-hooks H3). Oracle S1-S4. non-tri
                 Scenario::Complete { payload, extra_reads, .. } => {
                     ctx.label("complete");
                     ctx.nontrivial = !extra_reads.is_empty();
+                    // the server answers at once: an error that claims a timeout well before either timeout could have fired is spurious
+                    if let Some(ms) = obs.err_after_ms {
+                        let first_possible = if t > 0 { t.min(r) } else { r };
+                        if (obs.err_text.contains("TimedOut") || obs.err_text.contains("WouldBlock")) && ms + 60 < first_possible {
+                            return Outcome::fail("C13:completed-response-timed-out", format!("a timeout was reported {ms} ms after the send started, before any timeout could have expired; {describe}"));
+                        }
+                    }
+                    ctx.label_if(case.prepared == 1, "prepared-then-sent-after-T");
+                    ctx.label_if(case.prepared == 2, "prepared-sent-twice");
                     let in_time = obs.eof_at_ms.map(|ms| ms + 50 < t).unwrap_or(false);
                     if !in_time {
                         // the machine was too slow for this case to be meaningful: accepted either way
